@@ -3,5 +3,6 @@ CONSTANT Part = "send"
 CONSTANT Depth = 4
 CONSTANT AutoAccept = FALSE
 CONSTANT Pipe = 4194304
+CONSTANT Buf = 1
 INVARIANT Emit
 CHECK_DEADLOCK FALSE
